@@ -68,12 +68,12 @@ def run(ctx):
         "without SetCap (DESIGN Appendix B: SetCap mid-period is outside the stated quantifier)",
         "`exceeds the cap` is the limiter's own cap: a request above an ancestor's cap but within its own waits until "
         "Close (model and code agree; not alarmed on)",
-        "Use(0) answers nil before any check, also on a closed limiter (model and code agree; charging 0 is vacuous)",
         "close_returns is deadlock-freedom plus a 3-step path to the return; that the Go scheduler and `select` "
         "eventually take an enabled step is assumed",
         "timing: a lock-step burst counts only if it certainly lies within one period (wall-clock window check)",
-        "lastUsed_spec is about limiters still linked into the tree: a child unlinked by its own Close is no longer "
-        "reset, its LastUsed keeps the value of the last tick before its Close (model and code agree)",
+        "reading (coordinator decision): lastUsed_spec is about limiters still linked into the tree, which includes "
+        "every open limiter; a child unlinked by its own Close is no longer reset, so its LastUsed keeps the value of "
+        "the last tick before its Close (model and code agree; not alarmed on)",
     ]
     ctx.lean(props=["Props.C16"], drivers=["drv_c16"])
     ctx.harness("./cmd/c16", overlay=OVERLAY)
